@@ -289,7 +289,8 @@ func drawOps(t *rapid.T, maxW, maxH int, withResize bool) []op {
 		case k == 22:
 			ops = append(ops, op{Kind: "setstyle", St: drawStyle(t)})
 		case k == 23:
-			ops = append(ops, op{Kind: "cursor", X: rapid.IntRange(-1, maxW).Draw(t, "cx"), Y: rapid.IntRange(-1, maxH).Draw(t, "cy")})
+			// (also positions scrolled out to the left or above by more than one cell)
+			ops = append(ops, op{Kind: "cursor", X: rapid.IntRange(-4, maxW+2).Draw(t, "cx"), Y: rapid.IntRange(-4, maxH+2).Draw(t, "cy")})
 		case k == 24:
 			o := op{Kind: "curstyle", CS: tcell.CursorStyle(rapid.IntRange(0, 6).Draw(t, "cs")), Col: tcell.ColorNone}
 			switch rapid.IntRange(0, 5).Draw(t, "cscol") {
